@@ -426,26 +426,26 @@ Definition add_ph (s : kstate) (p : ph) : res kstate :=
   else Ok s3).
 
 (** * Mirror: HandleProposedHeader *)
-Inductive phcheck := PHC (status : N) (proposer : option N) (prev_hash : bytes) (prev_vs : valset).
+Inductive phcheck := PHC (status : N) (proposer : option N) (prev_hash : bytes) (prev_vs : valset) (view_vs : valset).
 
 Definition set_ph_check_status (s : kstate) (p : ph) (v : view) (vid : N) : phcheck :=
   if existsb (fun q => sigd_eqb (ph_sig q) (ph_sig p)) (v_phs v)
-  then PHC PHCheckAlreadyHaveSignature None [] empty_valset
+  then PHC PHCheckAlreadyHaveSignature None [] empty_valset empty_valset
   else
     match ph_key p with
-    | None => PHC PHCheckSignerUnrecognized None [] empty_valset
+    | None => PHC PHCheckSignerUnrecognized None [] empty_valset empty_valset
     | Some k =>
         if negb (existsb (N.eqb k) (vs_keys (v_vals v)))
-        then PHC PHCheckSignerUnrecognized None [] empty_valset
+        then PHC PHCheckSignerUnrecognized None [] empty_valset empty_valset
         else if hd_height (ph_hdr p) =? k_init_h s
-        then PHC PHCheckAcceptable (Some k) [] empty_valset
+        then PHC PHCheckAcceptable (Some k) [] empty_valset (v_vals v)
         else
           match k_chdr s with
-          | None => PHC PHCheckAcceptable (Some k) [] empty_valset
+          | None => PHC PHCheckAcceptable (Some k) [] empty_valset (v_vals v)
           | Some ch =>
               if vid =? ViewIDCommitting
-              then PHC PHCheckAcceptable (Some k) (hd_prev ch) empty_valset
-              else PHC PHCheckAcceptable (Some k) (hd_hash ch) (hd_vals ch)
+              then PHC PHCheckAcceptable (Some k) (hd_prev ch) empty_valset (v_vals v)
+              else PHC PHCheckAcceptable (Some k) (hd_hash ch) (hd_vals ch) (v_vals v)
           end
     end.
 
@@ -455,18 +455,18 @@ Definition ph_check (s : kstate) (p : ph) : phcheck :=
   let pbr := ph_round p in
   let vh := v_h (k_vot s) in let vr := v_r (k_vot s) in
   let chh := v_h (k_com s) in let cr := v_r (k_com s) in
-  if pbh <? chh then PHC PHCheckRoundTooOld None [] empty_valset
+  if pbh <? chh then PHC PHCheckRoundTooOld None [] empty_valset empty_valset
   else if pbh =? chh then
-    if pbr <? cr then PHC PHCheckRoundTooOld None [] empty_valset
+    if pbr <? cr then PHC PHCheckRoundTooOld None [] empty_valset empty_valset
     else if pbr =? cr then set_ph_check_status s p (k_com s) ViewIDCommitting
-    else PHC PHCheckRoundTooOld None [] empty_valset
+    else PHC PHCheckRoundTooOld None [] empty_valset empty_valset
   else if pbh =? vh then
-    if pbr <? vr then PHC PHCheckRoundTooOld None [] empty_valset
+    if pbr <? vr then PHC PHCheckRoundTooOld None [] empty_valset empty_valset
     else if pbr =? vr then set_ph_check_status s p (k_vot s) ViewIDVoting
     else if pbr =? wrap32 (vr + 1) then set_ph_check_status s p (k_nxt s) ViewIDNextRound
-    else PHC PHCheckRoundTooFarInFuture None [] empty_valset
-  else if pbh =? wrap64 (vh + 1) then PHC PHCheckNextHeight None [] empty_valset
-  else PHC PHCheckRoundTooFarInFuture None [] empty_valset.
+    else PHC PHCheckRoundTooFarInFuture None [] empty_valset empty_valset
+  else if pbh =? wrap64 (vh + 1) then PHC PHCheckNextHeight None [] empty_valset empty_valset
+  else PHC PHCheckRoundTooFarInFuture None [] empty_valset empty_valset.
 
 (** ValidateFinalizedProof of the simple scheme: per block hash the signer indices, or
     [None] when any signature is invalid; second component: all signers unique. *)
@@ -609,7 +609,7 @@ Definition handle_votes (kind : N) (s : kstate) (m : vmsg) : res (kstate * N) :=
 (** HandleProposedHeader; [fuel] bounds the single retry after a commit-proof backfill. *)
 Fixpoint handle_ph_loop (fuel : nat) (backfilled : bool) (s : kstate) (p : ph) : res (kstate * N) :=
   match ph_check s p with
-  | PHC status proposer prev_hash prev_vs =>
+  | PHC status proposer prev_hash prev_vs view_vs =>
     if status =? PHCheckAlreadyHaveSignature then Ok (s, HandleProposedHeaderAlreadyStored)
     else if status =? PHCheckSignerUnrecognized then Ok (s, HandleProposedHeaderSignerUnrecognized)
     else if status =? PHCheckRoundTooOld then Ok (s, HandleProposedHeaderRoundTooOld)
@@ -626,6 +626,7 @@ Fixpoint handle_ph_loop (fuel : nat) (backfilled : bool) (s : kstate) (p : ph) :
       let hd := ph_hdr p in
       if negb (hd_ok hd) then Ok (s, HandleProposedHeaderBadBlockHash)
       else if negb (vs_ok (hd_vals hd) && vs_ok (hd_next hd)) then Ok (s, HandleProposedHeaderBadBlockHash)
+      else if negb (valset_equal (hd_vals hd) view_vs) then Ok (s, HandleProposedHeaderBadBlockHash)
       else
         match proposer with
         | None => Ok (s, HandleProposedHeaderBadSignature)
@@ -894,7 +895,11 @@ Definition handle_replay (s0 : kstate) (hd : hdr) (cp : cproof) : res (kstate * 
      else if existsb (fun x => let '(h', _, e) := x in
                                (h' =? h) && existsb (fun p => bytes_eqb (hd_hash (ph_hdr p)) (hd_hash hd)) (re_phs e))
                      (st_rounds s)
-     then Panic "mainLoop: TODO: handle internal error from handling replayed block (round store refused the replayed header)"
+     then
+       (* the round store already holds the header as a proposed header of another round of this height and
+          refuses it as a replayed header: it is filed as a (keyless) proposed header of the replayed round *)
+       let s1 := log_w (set_rounds s (rs_save_ph (st_rounds s) (fake_ph hd r))) (WPH (fake_ph hd r)) in
+       Ok (set_vot s1 (with_phs (k_vot s1) (v_phs (k_vot s1) ++ [fake_ph hd r])))
      else
        let s1 := log_w (set_replayed s (st_replayed s ++ [hd])) (WReplay hd) in
        Ok (set_vot s1 (with_phs (k_vot s1) (v_phs (k_vot s1) ++ [fake_ph hd r])))) (fun s1 =>
